@@ -34,6 +34,9 @@ def check(run):
     # trace in any cache either), half of the submissions through the public DoTx alone
     mixed = '{"p1", "p2", "p3", "p7", "x1", "x2", "t1", "t3", "t4"}'
     plans.append(dict(num=30 if quick else 400, ops=16, window=0, txs=mixed, driver_args=["-reopen", "-direct", "60"]))
+    # long chains with a finality window, bad blocks on the tip: a walk that applies some blocks and then fails must leave
+    # the running node's irreversible height equal to what is stored
+    plans.append(dict(num=30 if quick else 300, ops=26, window=2, maxb=11, txs='{"t1", "t2", "t3", "t4", "p1", "p2"}', cfg="Gen_XState_fin.cfg", driver_args=["-reopen"]))
     groups = xc.gen(run, plans)
     if not run.violations:
         xc.replay_validate(run, groups)
